@@ -336,17 +336,19 @@ theorem serialize_run (ops : CellOps R) (hl : ops.Lawful) (m : Msg R) :
             · simp only [Bool.not_true, Bool.false_eq_true, if_false, if_true, Option.bind_some, finish, okB]
               cases ops.make b2.bits b2.refs <;> rfl
 
-/-- the body part of the regenerated `MessageAny.serialize` (whatever builder it starts on) is the hand model's -/
-theorem body_frag (ops : CellOps R) (body : Chunk R) (b : Builder R) :
-    (if (body.1.length : Int) ≤ Py.Tlb.availableBits b - 1 ∧ (body.2.length : Int) ≤ Py.Tlb.availableRefs b then
+/-- the body part of the regenerated `MessageAny.serialize` (whatever builder it starts on) is the hand model's; `c` is the test as
+    spelled in the source, equivalent to the model's -/
+theorem body_frag (ops : CellOps R) (body : Chunk R) (b : Builder R) (c : Prop) [Decidable c]
+    (hc : c ↔ ((body.1.length : Int) ≤ (1023 - (b.bits.length : Int)) - 1 ∧ body.2.length + b.refs.length ≤ 4)) :
+    (if c then
         (run (storeBit false) b).bind fun b7 => (run (storeCell body.1 body.2) b7).bind fun b8 => finish ops.make b8
       else (run (storeBit true) b).bind fun b10 => (Py.Tlb.storeRefOf ops.make body b10).bind fun b8 => finish ops.make b8) =
     (bodyR ops body b).bind fun b8 => finish ops.make b8 := by
-  unfold bodyR Py.Tlb.availableBits Py.Tlb.availableRefs Py.Tlb.storeRefOf
-  split <;> rename_i hc <;> split <;> rename_i hd
+  unfold bodyR Py.Tlb.storeRefOf
+  split <;> rename_i h1 <;> split <;> rename_i h2
   · simp [run_andThen, Option.bind_assoc]
-  · exfalso; apply hd; omega
-  · exfalso; apply hc; omega
+  · exact absurd (hc.mp h1) h2
+  · exact absurd (hc.mpr h2) h1
   · simp only [run_andThen, Option.bind_assoc]
     opt_comm
 
@@ -364,9 +366,9 @@ theorem message_ser_eq (ops : CellOps R) (ht : ops.Total) (m : Msg R) :
       simp only [Option.bind_some]
       cases init with
       | none =>
-        simp only [initR, body_frag]
+        simp (disch := (simp only [Py.Tlb.availableBits, Py.Tlb.availableRefs]; omega)) only [initR, body_frag]
       | some s =>
-        simp only [initR, body_frag]
+        simp (disch := (simp only [Py.Tlb.availableBits, Py.Tlb.availableRefs]; omega)) only [initR, body_frag]
         cases h3 : run (storeBit true) b0 with
         | none => rfl
         | some b1 =>
@@ -378,7 +380,7 @@ theorem message_ser_eq (ops : CellOps R) (ht : ops.Total) (m : Msg R) :
             split <;> rename_i hc
             all_goals (try (split <;> rename_i hd))
             all_goals first
-              | simp only [run_andThen, Option.bind_assoc]
+              | (simp only [run_andThen, Option.bind_assoc]; done)
               | (exfalso; revert hc hd; by_cases hb : body.2 = [] <;> simp only [hb, true_and, false_and, and_true, and_false, or_false,
                     not_true_eq_false, not_false_eq_true] <;> omega)
 
